@@ -471,7 +471,7 @@ func (w *world) lockOp() {
 		}
 		return owner
 	}
-	switch rng.Intn(27) {
+	switch rng.Intn(28) {
 	case 0, 1:
 		t := constants.StakeTimeUnitSec * int64(1+rng.Intn(3))
 		call(kp, types.StakeContract, znn, big.NewInt(int64(1+rng.Intn(30))*g.Zexp), definition.ABIStake.PackMethodPanic(definition.StakeMethodName, t), "stake.Stake")
@@ -535,8 +535,25 @@ func (w *world) lockOp() {
 		call(kp, c, qsr, amt, definition.ABIPillars.PackMethodPanic(definition.DepositQsrMethodName), "DepositQsr")
 	case 16:
 		c := []types.Address{types.PillarContract, types.SentinelContract}[rng.Intn(2)]
-		call(kp, c, znn, zero, definition.ABIPillars.PackMethodPanic(definition.WithdrawQsrMethodName), "WithdrawQsr")
-	case 17:
+		k := kp
+		// mostly somebody who HAS a deposit there (contract storage), sometimes twice in a row
+		if deps := w.qsrDeposits(c); len(deps) > 0 && rng.Intn(4) != 0 {
+			var holders []*wallet.KeyPair
+			for _, cand := range w.senders {
+				if d, ok := deps[cand.Address]; ok && d.Sign() > 0 {
+					holders = append(holders, cand)
+				}
+			}
+			if len(holders) > 0 {
+				k = holders[rng.Intn(len(holders))]
+				w.out.Count("locks:withdraw-by-deposit-holder")
+			}
+		}
+		call(k, c, znn, zero, definition.ABIPillars.PackMethodPanic(definition.WithdrawQsrMethodName), "WithdrawQsr")
+		if rng.Intn(3) == 0 {
+			call(k, c, znn, zero, definition.ABIPillars.PackMethodPanic(definition.WithdrawQsrMethodName), "WithdrawQsr")
+		}
+	case 17, 27:
 		if rng.Intn(3) != 0 { // deposit the required QSR first (same inbox, FIFO)
 			call(kp, types.SentinelContract, qsr, constants.SentinelQsrDepositAmount, definition.ABISentinel.PackMethodPanic(definition.DepositQsrMethodName), "DepositQsr")
 		}
@@ -546,7 +563,28 @@ func (w *world) lockOp() {
 		if e := w.pickMade("sentinel.Register"); e != nil && rng.Intn(4) != 0 {
 			k = e.kp
 		}
+		// mostly: the owner of a sentinel that IS registered (contract storage), now and then after waiting for its revoke
+		// window, and sometimes twice in a row (the second one must find nothing left to release)
+		if all := definition.GetAllSentinelInfo(w.storageOf(types.SentinelContract)); len(all) > 0 && rng.Intn(4) != 0 {
+			sort.Slice(all, func(i, j int) bool { return string(all[i].Owner[:]) < string(all[j].Owner[:]) })
+			si := all[rng.Intn(len(all))]
+			for _, c := range w.senders {
+				if c.Address == si.Owner {
+					k = c
+				}
+			}
+			if rng.Intn(2) == 0 {
+				cyc := constants.SentinelLockTimeWindow + constants.SentinelRevokeTimeWindow
+				for i := 0; i < 12 && !w.dead && (w.now()-si.RegistrationTimestamp)%cyc < constants.SentinelLockTimeWindow; i++ {
+					w.settle()
+				}
+			}
+			w.out.Count("locks:revoke-of-registered-sentinel")
+		}
 		call(k, types.SentinelContract, znn, zero, definition.ABISentinel.PackMethodPanic(definition.RevokeSentinelMethodName), "sentinel.Revoke")
+		if rng.Intn(3) == 0 {
+			call(k, types.SentinelContract, znn, zero, definition.ABISentinel.PackMethodPanic(definition.RevokeSentinelMethodName), "sentinel.Revoke")
+		}
 	case 19:
 		k := []*wallet.KeyPair{g.Pillar4, g.Pillar5, g.Pillar6, kp}[rng.Intn(4)]
 		name := fmt.Sprintf("plr-%d", rng.Intn(30))
